@@ -4,6 +4,7 @@ import (
 	"bytes"
 	"context"
 	"fmt"
+	"sync"
 	"testing"
 
 	goat "github.com/avos-io/goat"
@@ -130,6 +131,7 @@ type C03Foreign struct {
 	Code  int32        `json:"code"`
 	Msg   string       `json:"msg"`
 	Det   []kit.Detail `json:"det,omitempty"`
+	Via   string       `json:"via,omitempty"` // "" (direct) | proxy | demux: what lies between the caller and the scripted peer
 	Body  kit.Payload  `json:"body"`
 	Ser   bool         `json:"ser"`
 }
@@ -139,7 +141,7 @@ var c03StreamShapes = []string{"reset-alone", "reset-no-trailer", "reset-before-
 	"ok-trailer-explicit", "nonok-trailer-empty-md", "trailer-no-status", "body-then-reset"}
 
 func genC03Foreign(t *rapid.T) C03Foreign {
-	c := C03Foreign{Kind: rapid.SampledFrom(allKinds).Draw(t, "kind"), Ser: rapid.Bool().Draw(t, "ser")}
+	c := C03Foreign{Kind: rapid.SampledFrom(allKinds).Draw(t, "kind"), Ser: rapid.Bool().Draw(t, "ser"), Via: rapid.SampledFrom([]string{"", "", "proxy", "demux"}).Draw(t, "via")}
 	if c.Kind == kit.KindUnary {
 		c.Shape = rapid.SampledFrom(c03UnaryShapes).Draw(t, "shape")
 	} else {
@@ -164,7 +166,57 @@ func execC03Foreign(t *testing.T, c C03Foreign) (v Verdict) {
 	res := kit.Bubble(t, func() {
 		tp := kit.NewTap()
 		l := kit.NewLink("c0", tp, c.Ser)
-		cc := goat.NewClientConn(l.A, "c0", kit.ServerName)
+		// how the scripted peer is reached: directly, through a goat.Proxy, or as a logical connection of a goat.Demux
+		clientEnd := goat.RpcReadWriter(l.A)
+		readReqs := func() []*goat.Rpc { return l.B.ReadAvailable() }
+		writeReply := func(r *goat.Rpc) { _ = l.B.Write(context.Background(), r) }
+		closeAll := func() { l.Close() }
+		switch c.Via {
+		case "proxy":
+			pw := newPxWorld(c.Ser, nil)
+			cl, sv := pw.attach("c0"), pw.attach(kit.ServerName)
+			clientEnd = cl.A
+			readReqs = func() []*goat.Rpc { return sv.A.ReadAvailable() }
+			writeReply = func(r *goat.Rpc) { _ = sv.A.Write(context.Background(), r) }
+			closeAll = func() { cl.Close(); sv.Close(); pw.cancel() }
+		case "demux":
+			var dmu sync.Mutex
+			var lrw goat.RpcReadWriter
+			var got []*goat.Rpc
+			dctx, dcancel := context.WithCancel(context.Background())
+			dm := goat.NewDemux(dctx, l.B, func(r *goat.Rpc) string { return r.GetHeader().GetSource() }, func(rw goat.RpcReadWriter) {
+				dmu.Lock()
+				lrw = rw
+				dmu.Unlock()
+				for {
+					r, err := rw.Read(dctx)
+					if err != nil {
+						return
+					}
+					dmu.Lock()
+					got = append(got, r)
+					dmu.Unlock()
+				}
+			})
+			go dm.Run()
+			readReqs = func() []*goat.Rpc {
+				dmu.Lock()
+				defer dmu.Unlock()
+				out := got
+				got = nil
+				return out
+			}
+			writeReply = func(r *goat.Rpc) {
+				dmu.Lock()
+				rw := lrw
+				dmu.Unlock()
+				if rw != nil {
+					_ = rw.Write(context.Background(), r)
+				}
+			}
+			closeAll = func() { l.Close(); dm.Cancel("c0"); dm.Stop(); dcancel() }
+		}
+		cc := goat.NewClientConn(clientEnd, "c0", kit.ServerName)
 		ctx, cancel := context.WithCancel(context.Background())
 		defer cancel()
 		method := kit.FullMethod("f")
@@ -181,7 +233,7 @@ func execC03Foreign(t *testing.T, c C03Foreign) (v Verdict) {
 			kit.RunClientOps([]kit.COp{{Op: "recvall"}, {Op: "recv"}}, cs, cancel, clog)
 		}()
 		kit.Settle()
-		reqs := l.B.ReadAvailable()
+		reqs := readReqs()
 		if len(reqs) == 0 {
 			v.failf("no request envelope appeared")
 			return
@@ -220,12 +272,12 @@ func execC03Foreign(t *testing.T, c C03Foreign) (v Verdict) {
 		}
 		for _, e := range envs {
 			e.Wrap = true
-			_ = l.B.Write(context.Background(), e.Build(id, method, kit.ServerName, "c0"))
+			writeReply(e.Build(id, method, kit.ServerName, "c0"))
 			kit.Settle()
 		}
 		kit.Settle()
 		// whatever is still pending must end when the connection goes away
-		l.Close()
+		closeAll()
 		kit.Settle()
 		cancel()
 		kit.Settle()
@@ -296,7 +348,7 @@ func execC03Foreign(t *testing.T, c C03Foreign) (v Verdict) {
 			}
 		}
 	}
-	v.Info = kit.CaseInfo{Labels: []string{"kind=" + kit.KindNames[c.Kind], "shape=" + c.Shape, fmt.Sprintf("ser=%v", c.Ser)},
+	v.Info = kit.CaseInfo{Labels: []string{"kind=" + kit.KindNames[c.Kind], "shape=" + c.Shape, fmt.Sprintf("ser=%v", c.Ser), "foreign.via=" + map[string]string{"": "direct", "proxy": "proxy", "demux": "demux"}[c.Via]},
 		NonTrivial: true, Key: fmt.Sprintf("%d/%s/%d/%s/%d/%s/%v", c.Kind, c.Shape, c.Code, c.Msg, len(c.Det), c.Body.String(), c.Ser), Sample: c}
 	if v.Fail != "" {
 		v.Detail = map[string]any{"wire": tapSummary(tap, 50), "caller": clog.Snapshot()}
